@@ -94,7 +94,12 @@ CATALOG = {
                     "limit": {"quick": 1000, "thorough": 1000}}],
     },
     "C15": {
-        "drivers": [("optsweep", {"quick": 500, "thorough": 20000}, {})],
+        "drivers": [("optsweep", {"quick": 800, "thorough": 30000}, {})],
+        # the programs of the bounded ring model (universe with all-zero terms) under every setting of the four
+        # semantic options and several coefficient dtypes
+        "models": [{"module": "MC_Ring", "cfg": {"quick": "MC_Ring_config_quick", "thorough": "MC_Ring_config_thorough"},
+                    "extract": "ring_programs", "replay": "run_ring_program", "kw": {"configs": True},
+                    "limit": {"quick": 6000, "thorough": 200000}}],
     },
     "C16": {
         "drivers": [("text", {"quick": 400, "thorough": 15000}, {})],
